@@ -10,11 +10,12 @@ import refwalk
 import treegen
 from common import Stats
 
-MODES = ["P", "H", "L", "follow"]
+# "X+follow": the option -X first and the (deprecated) primary -follow later; -follow means -L from there on, whatever came before
+MODES = ["P", "H", "L", "follow", "P", "H", "L", "follow", "P+follow", "H+follow", "L+follow"]
 
 
 def expected(cwd, roots, mode, m, n, depth_first, deny=()):
-    w = refwalk.Walk("L" if mode == "follow" else mode, m, n, depth_first, True, cwd)
+    w = refwalk.Walk("L" if mode.endswith("follow") else mode, m, n, depth_first, True, cwd)
     w.deny = set(deny)
     out = []
     for r in roots:
@@ -24,12 +25,13 @@ def expected(cwd, roots, mode, m, n, depth_first, deny=()):
 
 def build_args(roots, mode, m, n, depth_first, rng):
     a = ["find"]
-    if mode in ("P", "H", "L"):
-        if mode != "P" or rng.random() < 0.5:
-            a.append("-" + mode)
+    flag = mode[0] if mode[0] in "PHL" else None
+    if flag:
+        if flag != "P" or rng.random() < 0.5 or mode != "P":
+            a.append("-" + flag)
     a += roots
     opts = []
-    if mode == "follow":
+    if mode.endswith("follow"):
         opts.append(["-follow"])
     if m is not None:
         opts.append(["-mindepth", str(m)])
